@@ -54,6 +54,8 @@ CATALOGUE = [
     ('sc', '.byte', ['1', "';'", '4'], False),          # a semicolon inside a character literal / string is not a comment
     ('ms', '.cstr', ['"a;b"'], False),
     (None, '.byte', ['"x;y"'], False),
+    ('ms2', '.cstr', ['"ms2: x ms2:"'], False),          # the label's own text inside the string it labels
+    ('e', '.byte', ['"the: e: end"'], False),
     ('pth', '.cstr', ['"C:\\\\"'], False),           # the string ends in an escaped backslash: C:\\ 
     (None, '.byte', ['"q\\\\"'], False),
     # directives and preprocessor lines take comments, blank lines and whitespace like any other line
